@@ -13,6 +13,7 @@ import warnings
 
 import numpy as np
 
+from harness.refmath import same_values
 from harness.core import run_tlc, require_clean, MachineryError
 from harness.graph import Graph, Walker, Adapter
 from harness import termeval
@@ -225,14 +226,14 @@ class ClosAdapter(Adapter):
                 C2 = copy.deepcopy(C)
                 C2.potential = u[perm]
                 v2 = np.array(C2.calculate(r[perm], gamma[perm]), dtype=float)
-                if not np.array_equal(v1[perm], v2, equal_nan=True):
+                if not same_values(v1[perm], v2):
                     bad.append(('Elementwise.permutation', {'kind': w['kind']}))
                 C3 = copy.deepcopy(C)
                 v3 = []
                 for i in range(len(r)):
                     C3.potential = u[i:i + 1]
                     v3.append(np.asarray(C3.calculate(r[i:i + 1], gamma[i:i + 1]), dtype=float)[0])
-                if not np.array_equal(v1, np.array(v3), equal_nan=True):
+                if not same_values(v1, np.array(v3)):
                     bad.append(('Elementwise.single_point', {'kind': w['kind']}))
                 # repeat evaluation gives the same values and does not disturb the first result
                 v4 = np.array(C.calculate(r, gamma), dtype=float)
@@ -245,7 +246,7 @@ class ClosAdapter(Adapter):
                 if sigma is not None:
                     A.sigma = sigma
                 v5 = np.array(A.calculate(r, gamma), dtype=float)
-                if not np.array_equal(v1, v5, equal_nan=True):
+                if not same_values(v1, v5):
                     bad.append(('AliasSame', {'kind': w['kind'], 'alias': other}))
         obs['_bad'] = sorted(bad, key=lambda x: x[0].startswith('ContactIsCore.float_noise') or x[1].get('signature', 'other') != 'other')[:3]
         return obs
